@@ -63,6 +63,14 @@ type SPConfig struct {
 	SigKeyIdx  int
 	SigCert    *Cert
 
+	// Live: re-use (and re-configure in place) the process-wide long-lived SP instead of building a
+	// fresh one. Only for profiles that never sign (the signing context is lazily cached by design).
+	Live bool
+	// Reuse: re-configure this instance in place instead of building a fresh one (run-local history).
+	Reuse              *saml2.SAMLServiceProvider
+	ReuseUsedEncSetter bool
+	ReuseUsedSigSetter bool
+
 	Store      *SimCertStore
 	PlainStore bool // use a stateless dsig.MemoryX509CertificateStore with Store's certificates (concurrency engine)
 	NilStore   bool
@@ -71,6 +79,9 @@ type SPConfig struct {
 	Skew time.Duration
 	Loc  *time.Location
 }
+
+// liveSP is the long-lived service provider of this process (see SPConfig.Live).
+var liveSP *saml2.SAMLServiceProvider
 
 type SPNode struct {
 	Cfg   *SPConfig
@@ -90,28 +101,56 @@ func NewSPNode(cfg *SPConfig, simNow func() time.Time) (*SPNode, error) {
 		return t
 	}
 	n.Clock = &SimClock{NowFn: n.now}
-	sp := &saml2.SAMLServiceProvider{
-		IdentityProviderSSOURL:         cfg.IdPSSOURL,
-		IdentityProviderSLOURL:         cfg.IdPSLOURL,
-		IdentityProviderIssuer:         cfg.IdPIssuer,
-		IdentityProviderSSOBinding:     cfg.IdPSSOBinding,
-		IdentityProviderSLOBinding:     cfg.IdPSLOBinding,
-		AssertionConsumerServiceURL:    cfg.ACS,
-		ServiceProviderSLOURL:          cfg.SLO,
-		ServiceProviderIssuer:          cfg.SPIssuer,
-		AudienceURI:                    cfg.Audience,
-		SignAuthnRequests:              cfg.SignRequests,
-		SignAuthnRequestsAlgorithm:     cfg.SigAlg,
-		SignAuthnRequestsCanonicalizer: cfg.Canon,
-		ForceAuthn:                     cfg.ForceAuthn,
-		IsPassive:                      cfg.IsPassive,
-		RequestedAuthnContext:          cfg.ReqCtx,
-		NameIdFormat:                   cfg.NameIDFormat,
-		ValidateEncryptionCert:         cfg.ValidateEncCert,
-		SkipSignatureValidation:        cfg.SkipSig,
-		AllowMissingAttributes:         cfg.AllowMissing,
-		MaximumDecompressedBodySize:    cfg.MaxBody,
+	var sp *saml2.SAMLServiceProvider
+	if cfg.Reuse != nil {
+		// a run-local history: this very instance served under another configuration before
+		sp = cfg.Reuse
+		sp.SPKeyStore, sp.SPSigningKeyStore = nil, nil
+		// the setters are only called again where the earlier configuration used them (an
+		// application that never used a setter does not call it to "clear" anything)
+		if cfg.ReuseUsedEncSetter {
+			sp.SetSPKeyStore(nil)
+		}
+		if cfg.ReuseUsedSigSetter {
+			sp.SetSPSigningKeyStore(nil)
+		}
+		sp.IDPCertificateStore = nil
+		sp.Clock = nil
+	} else if cfg.Live && liveSP != nil {
+		// the long-lived instance of this process is re-configured in place (fields reassigned,
+		// setters called again): nothing the library remembers from earlier use may survive that
+		sp = liveSP
+		sp.SPKeyStore, sp.SPSigningKeyStore = nil, nil
+		sp.SetSPKeyStore(nil)
+		sp.SetSPSigningKeyStore(nil)
+		sp.IDPCertificateStore = nil
+		sp.Clock = nil
+	} else {
+		sp = &saml2.SAMLServiceProvider{}
+		if cfg.Live {
+			liveSP = sp
+		}
 	}
+	sp.IdentityProviderSSOURL = cfg.IdPSSOURL
+	sp.IdentityProviderSLOURL = cfg.IdPSLOURL
+	sp.IdentityProviderIssuer = cfg.IdPIssuer
+	sp.IdentityProviderSSOBinding = cfg.IdPSSOBinding
+	sp.IdentityProviderSLOBinding = cfg.IdPSLOBinding
+	sp.AssertionConsumerServiceURL = cfg.ACS
+	sp.ServiceProviderSLOURL = cfg.SLO
+	sp.ServiceProviderIssuer = cfg.SPIssuer
+	sp.AudienceURI = cfg.Audience
+	sp.SignAuthnRequests = cfg.SignRequests
+	sp.SignAuthnRequestsAlgorithm = cfg.SigAlg
+	sp.SignAuthnRequestsCanonicalizer = cfg.Canon
+	sp.ForceAuthn = cfg.ForceAuthn
+	sp.IsPassive = cfg.IsPassive
+	sp.RequestedAuthnContext = cfg.ReqCtx
+	sp.NameIdFormat = cfg.NameIDFormat
+	sp.ValidateEncryptionCert = cfg.ValidateEncCert
+	sp.SkipSignatureValidation = cfg.SkipSig
+	sp.AllowMissingAttributes = cfg.AllowMissing
+	sp.MaximumDecompressedBodySize = cfg.MaxBody
 	if !cfg.NilClock {
 		sp.Clock = n.Clock.Dsig()
 	}
